@@ -109,6 +109,9 @@ func (w *c12World) handler(hook string, args ...any) {
 	if !ok || w.sw == nil || sw.GetName().Get() != w.swName.Get() {
 		return
 	}
+	if hook != "cap.pre" && hook != "cap.mid" && hook != "cap.patch" {
+		return // points used by the stress domain only
+	}
 	if hook == "cap.patch" {
 		if capOn, _ := args[2].(bool); !capOn {
 			return
@@ -304,7 +307,10 @@ func genC12(rng *rand.Rand, tier string, w *bufio.Writer) {
 	fmt.Fprintln(w, "case 4\ninit 2 0 0 0 0\nxsubmit 1 0\nxsubmit 2 0\nstep 1\nstep 2\nshift 3")
 	// PatchExpired against a PatchTreasures batch, HowMany below the budget, ShiftMatching bounded by the budget
 	fmt.Fprintln(w, "case 5\ninit 3 1 0 0 0 0\nxsubmit 1 1\nsubmit 2 2:1 3:1\nstep 2\nstep 2\nstep 1\nstep 2\nstep 2\nshift 5\nxsubmit 1 0")
-	for c := 6; c < cases; c++ {
+	// a matching record WITHOUT an expiry (created by a cap-bearing PatchTreasures) next to an idle expired one:
+	// PatchExpired must count it (sequential: cap 1, the create takes the whole budget)
+	fmt.Fprintln(w, "case 6\ninit 1 0 -\nsubmit 1 c=i 1:1\nstep 1\nstep 1\nstep 1\nxsubmit 2 1\nstep 2")
+	for c := 7; c < cases; c++ {
 		fmt.Fprintf(w, "case %d\n", c)
 		n := 2 + rng.Intn(5)
 		m := 1 + rng.Intn(3)
